@@ -76,6 +76,52 @@ def mon_limit_change(case_line, trace):
                 return 'limit-ignored-after-set_config: delivered %d bytes with max_message_size %d in force when the message was completed' % (len(ws.unhx(ot.res[5:])), cur)
     return None
 
+def au_flip_cases(rng, n):
+    """accept_unmasked_frames changed by set_config on a live connection: the mask-direction rule must follow the value in force"""
+    out = []
+    for i in range(n):
+        role = 'ssc'[i % 3]
+        au0 = rng.randint(0, 1)
+        flips = sorted(rng.sample(range(1, 6), rng.randint(1, 2)))
+        ops, rds, plan = [], [], []
+        au = au0
+        for j in range(6):
+            if j in flips:
+                au = 1 - au
+                ops.append('sl:none:none:%d' % au)
+            masked = rng.random() < 0.5
+            fr = ws.encode_frame(1, b'hi', mask=b'\x11\x22\x33\x44' if masked else None)
+            ops.append('r'); rds += ['d:' + ws.hx(fr), 'e:wb']
+            plan.append((masked, au))
+        line = ws.scase_line('au%d' % i, role, ops + ['r'], rds, [], [], au=bool(au0), rbs=rng.choice([0, 64, 4096]))
+        out.append('SI' + line[1:])
+    return out
+
+def mon_au_flip(case_line, trace):
+    case = ws.SCase(case_line); ots = ws.parse_trace(trace)
+    au = case.au
+    for op, ot in zip(case.ops, ots):
+        if op.startswith('sl:'):
+            au = op.split(':')[3] == '1'
+            continue
+        if op != 'r' or ot.res == 'err:io:wb':
+            continue
+        data = [e for e in ot.events if e.startswith('R:') and not e.startswith('R:e') and e not in ('R:eof', 'R:EMPTYBUF')]
+        if not data:
+            continue
+        masked = bool(bytes.fromhex(data[0][2:])[1] & 0x80)
+        if case.role == 's':
+            ok = masked or au
+        else:
+            ok = not masked
+        if ok and not ot.res.startswith('ok:T:6869'):
+            return 'mask-rule-stale: %s frame refused (%s) with accept_unmasked_frames=%s in force' % ('masked' if masked else 'unmasked', ot.res[:40], au)
+        if not ok and not ot.res.startswith('err:proto'):
+            return 'mask-rule-stale: %s frame answered %s with accept_unmasked_frames=%s in force (a protocol error is due)' % ('masked' if masked else 'unmasked', ot.res[:40], au)
+        if not ok:
+            break
+    return None
+
 class StreamProp(E2Prop):
     """reader cases built from generated frame sequences"""
     proto_class_only = True       # C02/C05/C06/C08 name the error class (protocol / capacity / utf8), not the ProtocolError variant
@@ -116,7 +162,7 @@ class StreamProp(E2Prop):
 class C02(StreamProp):
     id = 'C02'
     rule = ('grammar-generated frame sequences (fragmentation depth 1-4, interleaved controls, non-minimal lengths, both roles, accept_unmasked on/off), '
-            'the same with one of %d rule violations injected, optional Close, the exhaustive single-frame alphabet (opcode x FIN x size {0,1,125,126} x RSV x right/wrong mask) per role; every case compared with an independent RFC 6455 decoder; distinct by trace' % len(gen_streams.VIOLATIONS))
+            'the same with one of %d rule violations injected, optional Close, the exhaustive single-frame alphabet (opcode x FIN x size {0,1,125,126} x RSV x right/wrong mask) per role; accept_unmasked_frames flipped by set_config between frames; every case compared with an independent RFC 6455 decoder; distinct by trace' % len(gen_streams.VIOLATIONS))
     level_text = 'read refines an independent declarative RFC 6455 decoder (theorem over all byte streams/schedules); model tied by differential streams incl. every rule violation'
     level_note = 'Trusted: Coq kernel, Protocol.v/Codec.v/Utf8.v, the RFC spec decoder in Coq (short, auditable), correspondence generators'
     def generate(self, tier, rng):
@@ -131,7 +177,11 @@ class C02(StreamProp):
                     for au in (False, True):
                         data = prefix + fr + gen_e2.peer_frame(role, 1, b'tail')
                         out.append(gen_streams.reader_case('a%d' % k, role, [data], 5, au=au)); k += 1
-        return reid(self.corpus() + out)
+        return reid(self.corpus() + out) + au_flip_cases(rng, 60 if tier == 'quick' else 1500)
+    def monitor(self, case_line, trace, mline):
+        if case_line.startswith('SI '):
+            return mon_au_flip(case_line, trace)
+        return StreamProp.monitor(self, case_line, trace, mline)
 
 class C05(StreamProp):
     id = 'C05'
@@ -348,6 +398,14 @@ class C08(StreamProp):
                 for role in 'sc':
                     reason = b'r' * (total - len(tail_)) + tail_
                     out.append(gen_streams.reader_case('t%d' % k, role, [gen_e2.peer_frame(role, 8, gen_e2.close_payload(1000, reason))], 2)); k += 1
+        # close frames whose status code may not appear on the wire (the reply then carries 1002): the reason must be validated all the
+        # same, in the active state and after this endpoint's own Close (when the peer's frame is reported unchanged)
+        for code in (1005, 1006, 1015, 0, 999, 1016, 2999, 5000, 65535, 1000, 3000):
+            for reason in (b'ok', b'\xff', b'ab\xc3', b'\xed\xa0\x80', b'\xf0\x9f\x98', 'gr\u00fc\u00df'.encode()):
+                for role in 'sc':
+                    fr = gen_e2.peer_frame(role, 8, gen_e2.close_payload(code, reason))
+                    out.append(gen_streams.reader_case('t%d' % k, role, [fr], 2)); k += 1
+                    out.append(ws.scase_line('t%d' % k, role, ['c:-', 'r', 'r'], ['d:' + ws.hx(fr)], ['a:1000'] * 4, [])); k += 1
         # a multi-byte character cut by fragments that are valid (or empty) on their own
         for ch in ('é', '€', '\U0001F600'):
             b = ch.encode()
@@ -464,7 +522,7 @@ def rand_msgs(rng, sizes, n):
 class C01(E2Prop):
     id = 'C01'
     rule = ('writer: message lists (text/binary/ping/pong, payload sizes at 0,125/126,65535/65536 and above the read buffer) x write_buffer_size x accept patterns, wire compared byte-exactly with an '
-            'independent encoder; reader (opposite role) fed that encoding under whole/drip/random cuts x read_buffer_size; reads must return exactly the messages')
+            'independent encoder; reader (opposite role, accept_unmasked on/off) fed that encoding under whole/drip/random cuts with and without WouldBlock between chunks x read_buffer_size; reads must return exactly the messages')
     level_text = 'writer theorem (wire = concatenated encodings after a successful flush, prefix always) and reader theorem (reads of that encoding return exactly the messages) composed; unbounded in count, sizes, keys, cuts'
     level_note = 'Trusted: Coq kernel, Protocol.v/Codec.v/Header.v/Mask.v, correspondence'
     def generate(self, tier, rng):
@@ -487,7 +545,13 @@ class C01(E2Prop):
             rrole = 's' if role == 'c' else 'c'
             for chunks in ([wire], gen_streams.segmentations(rng, wire)[-1]) + (([bytes([b]) for b in wire],) if len(wire) < 400 else ()):
                 rbs = rng.choice([0, 1, 2, 5, 14, 64, 4096, 131072])
-                out.append(ws.scase_line('r%d' % k, rrole, ['r'] * (len(msgs) + 2), ['d:' + ws.hx(c) for c in chunks if c], [], [], rbs=rbs,
+                rds = []
+                wbb = rng.random() < 0.4                      # the transport reports WouldBlock between chunks: the read is simply repeated
+                for c in chunks:
+                    if c:
+                        rds.append('d:' + ws.hx(c))
+                        if wbb: rds.append('e:wb')
+                out.append(ws.scase_line('r%d' % k, rrole, ['r'] * (len(msgs) + 2 + (len(rds) // 2 if wbb else 0)), rds, [], [], rbs=rbs,
                                          mms=None, mfs=None, au=(k % 3 == 0))); k += 1
         for role in 'sc':
             for n_ in ((2**18 + 1,) if tier == 'quick' else (2**18, 2**18 + 1, 2**20 + 3)):
@@ -829,7 +893,7 @@ class C12(E2Prop):
 class C14(E2Prop):
     id = 'C14'
     impl_only_kinds = ('EP',)
-    rule = ('(write_buffer_size, max_write_buffer_size) over {0,1,2,9,10,11,12,20,600}^2 with max > wbs x message sizes 0..=12 x refusal windows x ping floods while blocked; '
+    rule = ('(write_buffer_size, max_write_buffer_size) over {0,1,2,9,10,11,12,20,600}^2 with max > wbs x message sizes 0..=12 x refusal windows (all-or-nothing and partial acceptance followed by WouldBlock) x ping floods while blocked; '
             'WriteBufferFull decisions recomputed independently from sizes and accepted bytes')
     level_text = 'invariant |out_buffer| <= max (+ one pending control frame), WriteBufferFull hands the frame back and queues nothing, retry succeeds with room, batching threshold and eager mode (theorems)'
     level_note = 'Trusted: Coq kernel, Codec.v/Protocol.v, correspondence'
@@ -859,6 +923,18 @@ class C14(E2Prop):
                     mx = first + true_size - d
                     ops = ['wb:000102', 'wb:' + ws.hx(bytes((i * 7) & 255 for i in range(n))), 'f', 'f', 'f']
                     out.append(gen_e2.history('e%d' % k, role, ops, [], 'wb2', 'ok', 0, max(mx, true_size))); k += 1
+        # the transport takes PART of the buffered bytes and then blocks: only the unsent remainder counts against the bound, so a
+        # message that fits in the room really freed must be accepted (and one that does not, refused)
+        for role in 'sc':
+            for n in (10, 30):
+                a = gen_e2.frame_size(role, n)
+                for kacc in (1, a // 2, a - 1):
+                    for slack in (0, 1, 5):
+                        mx = a + slack
+                        for m in (0, 1, 4, 8):
+                            b = gen_e2.frame_size(role, m)
+                            ops = ['wb:' + ws.hx(bytes(range(n))), 'wb:' + ws.hx(bytes(range(m))), 'wb:' + ws.hx(bytes(range(m))), 'f', 'f', 'f']
+                            out.append(ws.scase_line('pa%d' % k, role, ops, [], ['a:%d' % kacc, 'e:wb', 'e:wb', 'e:wb', 'a:100000', 'a:100000', 'a:100000'], [], wbs=0, max_=max(mx, b))); k += 1
         # set_config changes both sizes at run time: the new bound must be the one enforced
         for role in 'sc':
             fs = gen_e2.frame_size(role, 4)
